@@ -844,6 +844,22 @@ impl<'a> ValueGen<'a> {
 					_ => 95,
 				};
 				let lim: i128 = (1i128 << bits) - 1;
+				if self.invalid > 0.0 && !self.no_decimal_oracle && rng.gen_bool(0.2) {
+					// just outside: one more than the fixed size holds, a byte too long, or a
+					// mantissa that cannot be rescaled to the schema's scale within 96 bits
+					self.maybe_invalid = true;
+					let big: i128 = match rng.gen_range(0..4) {
+						0 => lim + 1,
+						1 => -lim - 2,
+						2 => (lim + 1).saturating_mul(256).min((1i128 << 95) - 1),
+						_ => (1i128 << 95) - 1 - rng.gen_range(0..1000),
+					};
+					return match rng.gen_range(0..3) {
+						0 if *scale <= 28 => SV::Str(dec_string(rng, big, *scale)),
+						1 => SV::Str(big.to_string()),
+						_ => self.int_sv(big),
+					};
+				}
 				let u = gen_int_in(rng, -lim - 1, lim);
 				let pow = 10i128.checked_pow(*scale);
 				let integral = pow.map_or(false, |p| u % p == 0);
